@@ -25,6 +25,7 @@ Definition eqb_sobs (a b : obs) : bool :=
   | Res p e, Res p' e' => N.eqb p p' && Bool.eqb e e'
   | EvAdd p s c, EvAdd p' s' c' | EvRem p s c, EvRem p' s' c' | Ent p s c, Ent p' s' c' => N.eqb p p' && N.eqb s s' && N.eqb c c'
   | Cnt n, Cnt n' | Other n, Other n' => N.eqb n n'
+  | RaceOut a b c d, RaceOut a' b' c' d' => N.eqb a a' && N.eqb b b' && N.eqb c c' && N.eqb d d'
   | _, _ => false
   end.
 
@@ -86,6 +87,21 @@ Definition mon (m : mst) (o : op) (out : list obs) : mst * verdict :=
                Nat.eqb (length seen) (length mine) &&
                forallb (fun x => existsb (eqb3 x) seen) mine &&
                nodupN ids) CS_EXACT)
+  | Race n q1 q2 =>
+      (* n rounds of two free-running requests of different peers for one server feature; after
+         every round the bindings granted in it are deleted again.  Per round exactly one request
+         is granted iff the feature is unbound and at least one request is valid by the grant rule,
+         the other one is refused, and at no time the feature has more than one binding *)
+      if negb (race_ok q1 q2) then (m, chk (eqb_sobs_list out [NotRunnable]) CS_SCHED) else
+      let g := if negb (existsb (on3 (q_srv q1)) (sreg m)) && ((srv_ok q1 && cli_ok q1) || (srv_ok q2 && cli_ok q2))
+               then 1%N else 0%N in
+      (m, match out with
+          | [RaceOut n' gr rf ov] =>
+              chk (N.eqb n' n) CS_SCHED ++
+              chk (N.eqb gr (n * g) && N.eqb rf (n * (2 - g))) CS_GRANT ++
+              chk (N.eqb ov 0) CS_SINGLE
+          | _ => [CS_SCHED]
+          end)
   | OnFeat f =>
       let n := N.of_nat (length (filter (on3 f) (sreg m))) in
       (m, match out with
